@@ -25,6 +25,9 @@ structure InvQ (s : State) : Prop where
   q_repb : ∀ t j b, (s.thr t).pc = .rep j b → (s.job j).kind = .blocking → b = true
   q_uretb : ∀ t j b, (s.thr t).pc = .bUnlockRet j b → (s.job j).kind = .blocking → b = true
   q_oref : ∀ j, (s.job j).kind = .timed → (s.job j).odone = true → (s.job j).oref = false
+  q_tryc : ∀ t j x, (s.thr t).pc = .tryC j x → x ≠ .done
+  q_fresh : ∀ j, (s.job j).st = .fresh → (s.job j).odone = false
+  q_rep : ∀ t j b, (s.thr t).pc = .rep j b → (s.job j).st ≠ .fresh
 
 theorem invQ_init (w : Workload) : InvQ (init w) := by
   constructor <;> simp [init] <;> intro t <;> split <;> simp [Pc.setter]
@@ -32,7 +35,8 @@ theorem invQ_init (w : Workload) : InvQ (init w) := by
 /-- every field -/
 macro "q_all" hq:ident : tactic => `(tactic| (
   have := ($hq).q_zero; have := ($hq).q_zz; have := ($hq).q_xh; have := ($hq).q_locked; have := ($hq).q_lockedD; have := ($hq).q_uretb; have := ($hq).q_zeroer; have := ($hq).q_listed; have := ($hq).q_running; have := ($hq).q_called
-  have := ($hq).q_cb; have := ($hq).q_odone; have := ($hq).q_block; have := ($hq).q_repb; have := ($hq).q_oref))
+  have := ($hq).q_cb; have := ($hq).q_odone; have := ($hq).q_block; have := ($hq).q_repb; have := ($hq).q_oref
+  have := ($hq).q_tryc; have := ($hq).q_fresh; have := ($hq).q_rep))
 
 macro "q_same" hq:ident : tactic => `(tactic| (
   try (case q_zero => first | exact ($hq).q_zero | (have := ($hq).q_zero; grind))
@@ -49,7 +53,20 @@ macro "q_same" hq:ident : tactic => `(tactic| (
   try (case q_odone => first | exact ($hq).q_odone | (have := ($hq).q_odone; grind))
   try (case q_block => first | exact ($hq).q_block | (have := ($hq).q_block; grind))
   try (case q_repb => first | exact ($hq).q_repb | (have := ($hq).q_repb; grind))
-  try (case q_oref => first | exact ($hq).q_oref | (have := ($hq).q_oref; grind))))
+  try (case q_oref => first | exact ($hq).q_oref | (have := ($hq).q_oref; grind))
+  try (case q_tryc => first | exact ($hq).q_tryc | (have := ($hq).q_tryc; grind))
+  try (case q_fresh => first | exact ($hq).q_fresh | (have := ($hq).q_fresh; grind))
+  try (case q_rep => first | exact ($hq).q_rep | (have := ($hq).q_rep; grind))))
+
+/-- facts of the other invariants the preservation proofs use -/
+macro "q_ctx" hz:ident ht:ident hi:ident : tactic => `(tactic| (
+  have := ($hz).z_pc; have := ($hz).z_nz; have := ($ht).t_one; have := ($ht).t_nz; have := ($ht).t_xh
+  have := ($hi).j_own; have := ($hi).j_out; have := ($hi).l_run; have := ($hi).l_dec; have := ($hi).l_head
+  have := ($hi).j_res; have := ($hi).j_rep; have := ($hi).j_to; have := ($hi).j_dec; have := ($hi).j_b
+  have := ($hi).j_tryL; have := ($hi).j_tryC; have := ($hi).r_nrel; have := ($hi).r_block))
+
+macro "q_solve3" hz:ident ht:ident hi:ident hq:ident : tactic =>
+  `(tactic| (q_same $hq; all_goals (q_ctx $hz $ht $hi; q_all $hq); all_goals (try grind)))
 
 macro "q_solve" hq:ident : tactic => `(tactic| (q_same $hq; all_goals (q_all $hq); all_goals (try grind)))
 
